@@ -36,20 +36,19 @@ import (
 )
 
 // the topic's current metadata timestamp
-func c01iUpdated(sc *vScn) time.Time {
-	if t := globals.hub.topicGet(sc.topic); t != nil {
+func c01iUpdatedOf(topic string) time.Time {
+	if t := globals.hub.topicGet(topic); t != nil {
 		return t.updated
 	}
-	if st, err := store.Topics.Get(sc.topic); err == nil && st != nil {
+	if st, err := store.Topics.Get(topic); err == nil && st != nil {
 		return st.UpdatedAt
 	}
 	return time.Now().UTC()
 }
 
-// the desc options object for an ims kind ("" = no options object at all)
-func c01iOpts(sc *vScn, kind, bad string) string {
-	upd := c01iUpdated(sc)
-	var parts []string
+// the "ims" member for an ims kind ("" for kind a = absent)
+func c01iImsOf(topic, kind string) string {
+	upd := c01iUpdatedOf(topic)
 	var ts *time.Time
 	switch kind {
 	case "z":
@@ -74,8 +73,17 @@ func c01iOpts(sc *vScn, kind, bad string) string {
 		t := time.Now().UTC().Add(time.Hour)
 		ts = &t
 	}
-	if ts != nil {
-		parts = append(parts, `"ims":`+vJSON(ts))
+	if ts == nil {
+		return ""
+	}
+	return `"ims":` + vJSON(ts)
+}
+
+// the desc options object for an ims kind ("" = no options object at all)
+func c01iOpts(sc *vScn, kind, bad string) string {
+	var parts []string
+	if ims := c01iImsOf(sc.topic, kind); ims != "" {
+		parts = append(parts, ims)
 	}
 	switch bad {
 	case "1":
